@@ -3,7 +3,7 @@
 export HOME=/tmp/triage/home; mkdir -p $HOME
 CLI=/verif/.work/cli-target/debug/mimium-cli
 for b in vm wasm; do
-  out=$(timeout 30 $CLI "$1" --backend=$b --no-gui --output-format=csv --times ${2:-3} 2>/tmp/triage/err.$b); rc=$?
+  out=$(timeout 30 $CLI "$1" --backend=$b --no-gui --output-format=csv --times ${2:-3} ${MMFLAGS} 2>/tmp/triage/err.$b); rc=$?
   echo "[$b rc=$rc] $(echo "$out" | tr '\n' ' ' | cut -c1-200)"
   grep -a -m2 "panicked at\|Error\|error:\|not defined\|cannot" /tmp/triage/err.$b | sed 's/\x1b\[[0-9;]*m//g' | cut -c1-220
   grep -a -A1 -m1 "panicked at" /tmp/triage/err.$b | tail -1 | cut -c1-200
